@@ -7,6 +7,3 @@ func c11(args []string) int {
 	return run.Finish()
 }
 
-func genTransferTokens(repo string) (string, error) {
-	return "Definition TransferTokens_translator_ok := true.\n", nil
-}
